@@ -152,12 +152,18 @@ class AssignmentTrans(AdjointTransformation):
                 node.parent.children.insert(node.position, assignment)
 
         if (len(deferred_inc) == 1 and
-                isinstance(deferred_inc[0][0], Reference)):
+                isinstance(deferred_inc[0][0], Reference) and
+                deferred_inc[0][1] == BinaryOperation.Operator.ADD):
             # No need to output anything as the adjoint is A = A.
             pass
         elif deferred_inc:
             # Output the adjoint for all increment terms in a single line.
-            rhs, _ = deferred_inc.pop(0)
+            rhs, operator = deferred_inc.pop(0)
+            if operator == BinaryOperation.Operator.SUB:
+                # The first increment term is subtracted in the
+                # tangent-linear code so it must keep its sign.
+                rhs = UnaryOperation.create(
+                    UnaryOperation.Operator.MINUS, rhs)
             for term, operator in deferred_inc:
                 rhs = BinaryOperation.create(operator, rhs, term)
             assignment = Assignment.create(node.lhs.copy(), rhs)
